@@ -559,6 +559,12 @@ namespace bluetoe {
         case details::att_opcodes::confirmation:
             handle_value_confirmation( input, in_size, output, out_size, connection );
             break;
+        // there is no response to a command, nor to a notification or an indication send by a client
+        case details::att_opcodes::signed_write_command:
+        case details::att_opcodes::notification:
+        case details::att_opcodes::indication:
+            out_size = 0;
+            break;
         default:
             error_response( *input, details::att_error_codes::request_not_supported, output, out_size );
             break;
